@@ -412,11 +412,26 @@ def run(repo: Repo, rep: Report, tier: str) -> None:
         dom = cfg.dominators()
         guards = [cfg.nodes[d] for d in dom[comp[0].id] if cfg.nodes[d].kind == "test"]
         guarded = any("IN_PROGRESS" in norm(g.ast) for g in guards)
-    if comp and guarded:
+    # ... and on nothing else: in particular not on the name still being on the stack (a re-parse marks the schema IN_PROGRESS without
+    # pushing it; its exit must still complete it)
+    extra_guard = None
+    if comp:
+        from sa.cfg import guards as _guards
+
+        for g, pol in _guards(cfg, comp[0].id, dom):
+            if g.kind == "test" and pol is not None and any(isinstance(x, ast.Attribute) and x.attr in ("schema_stack", "recursion_depth") for x in ast.walk(g.ast)):
+                extra_guard = g
+    if comp and guarded and extra_guard is not None:
+        rep.violation("R8.5", f"{ucd.relpath}:{EXIT} terminal state", f"{ex.fq}|terminal-state-conditional",
+                      f"IN_PROGRESS -> COMPLETED happens only when `{norm(extra_guard.ast)[:60]}` allows it: a schema that was re-entered without a stack frame "
+                      "stays IN_PROGRESS for ever (non-terminal state, later references look like cycles)", ex.loc(extra_guard.ast))
+    elif comp and guarded:
         rep.ok("R8.5", f"{ucd.relpath}:{EXIT} terminal state", "IN_PROGRESS -> COMPLETED on exit (placeholder states untouched)", ex.loc(comp[0].ast))
     else:
         rep.violation("R8.5", f"{ucd.relpath}:{EXIT} terminal state", f"{ex.fq}|terminal-state",
                       "exit does not move IN_PROGRESS to COMPLETED: schemas stay non-terminal / re-entrant refs look like cycles", ex.loc())
+
+    _registration_rules(repo, rep)
 
     # ---------------------------------------------------------------- R8.6 post-condition
     bs = repo.func("core.loader.schemas.extractor:build_schemas")
@@ -443,6 +458,14 @@ def run(repo: Repo, rep: Report, tier: str) -> None:
     else:
         rep.violation("R8.6", f"{bs.module.relpath}:build_schemas post-condition", f"{bs.fq}|postcondition",
                       "build_schemas can return without checking that every declared schema name was registered", bs.loc())
+
+
+def _registration_rules(repo: Repo, rep: Report) -> None:
+    """R8.7: every declared schema ends up registered (rules of C02/R2.6: registration on the way out of _parse_schema, no vetoing flag
+    raised before the decision)."""
+    from rules._reuse import reuse
+
+    reuse(repo, rep, "c02", {"R2.6": "R8.7"})
 
 
 def _find_cycle(succ: Dict[str, Set[str]]) -> Optional[List[str]]:
